@@ -25,7 +25,7 @@ RULE = ('Generated files rendered from an abstract description with equivalent s
 ASSUMPTIONS = ['#meta is only generated in the last subsection of its name within a block/link (the documentation leaves '
                'its scope over later same-named subsections open)',
                'the wrong-atom-count fault is only injected in the two unambiguous forms',
-               'names (atoms, blocks, macros) contain no whitespace or special characters']
+               'names of atoms and blocks contain no whitespace or special characters; macro names contain none of the documented terminators (blank, braces, quote, $) nor a colon']
 MIN_HITS = {'quick': 3000, 'thorough': 120000}
 CASE_TIMEOUT = 900
 
@@ -41,7 +41,16 @@ def gen_ff(rnd):
     if rnd.random() < 0.5:
         d['variables'] = {'elastic_network_bond_type': rnd.choice([1, 6]), 'center_weight': 'mass'} if rnd.random() < 0.5 else {'regular': 0.47}
     if rnd.random() < 0.6:
-        d['macros'] = {'bb_type': rnd.choice(['P2', 'Q5']), 'fc': str(rnd.choice([1250, 5000]))}
+        # a macro name runs up to the next blank, brace, quote or '$': '-', '.', '+' and '/' are part of it; a shorter macro that is
+        # a prefix of another one is defined as well
+        btn = rnd.choice(['bb_type', 'bb_type', 'bb-type', 't.bb'])
+        fcn = rnd.choice(['fc', 'fc', 'k-stiff', 'fc.bb', 'k+', 'f/c'])
+        d['macros'] = {btn: rnd.choice(['P2', 'Q5']), fcn: str(rnd.choice([1250, 5000]))}
+        if fcn[0] == 'k':
+            d['macros']['k'] = '1000'
+        if btn == 't.bb':
+            d['macros']['t'] = 'C1'
+        d['_btn'], d['_fcn'] = btn, fcn
     items = []
     used_block = set()
     for _ in range(rnd.randint(0, 4)):
@@ -52,7 +61,7 @@ def gen_ff(rnd):
         nat = rnd.randint(1, 5)
         atoms = []
         for i in range(nat):
-            a = {'name': ['BB', 'SC1', 'SC2', 'SC3', 'SC4'][i], 'atype': rnd.choice(['P2', 'C1', 'Qd', '$bb_type']) if d['macros'] else rnd.choice(['P2', 'C1', 'Qd']),
+            a = {'name': ['BB', 'SC1', 'SC2', 'SC3', 'SC4'][i], 'atype': rnd.choice(['P2', 'C1', 'Qd', '$' + d['_btn']]) if d['macros'] else rnd.choice(['P2', 'C1', 'Qd']),
                  'resid': 1, 'resname': name, 'cg': i + 1}
             r = rnd.random()
             if r < 0.7:
@@ -77,7 +86,7 @@ def gen_ff(rnd):
             lines = []
             for _ in range(rnd.randint(1, 3)):
                 at = rnd.sample(names, n)
-                params = [rnd.choice(['1', '2', '9'])] + [rnd.choice(['0.47', '120', '$fc' if d['macros'] else '1250', '25.0']) for _ in range(rnd.randint(0, 3))]
+                params = [rnd.choice(['1', '2', '9'])] + [rnd.choice(['0.47', '120', '$' + d['_fcn'] if d['macros'] else '1250', '25.0']) for _ in range(rnd.randint(0, 3))]
                 if t == 'exclusions':
                     params = []
                 meta = None
@@ -134,7 +143,7 @@ def gen_ff(rnd):
                     if rnd.random() < 0.1:
                         a['atomname'] = base      # explicit, same as base
                     atts.append(a)
-                params = [rnd.choice(['1', '2'])] + [rnd.choice(['0.35', '$fc' if d['macros'] else '700', 'dist(BB,+BB)' if False else '96'])
+                params = [rnd.choice(['1', '2'])] + [rnd.choice(['0.35', '$' + d['_fcn'] if d['macros'] else '700', 'dist(BB,+BB)' if False else '96'])
                                                       for _ in range(rnd.randint(0, 2))]
                 if t == 'exclusions' or (t.startswith('!') and rnd.random() < 0.5):
                     params = []
